@@ -124,6 +124,22 @@ func newPool() *purityPool {
 	idb.Id = "01J0PURITY0000000000000001"
 	p.models["m_id_a"] = ida
 	p.models["m_id_b"] = idb
+	// models on which the printer (and the builders) take their error paths: "inputs untouched" holds there as well
+	noname := proto.Clone(big).(*openfgav1.AuthorizationModel)
+	for _, c := range noname.GetConditions() {
+		c.Name = "" // keyed in the map, the nested name left out (hand-written JSON)
+	}
+	p.models["m_cond_noname"] = noname
+	mismatch := proto.Clone(big).(*openfgav1.AuthorizationModel)
+	for k, c := range mismatch.GetConditions() {
+		c.Name = k + "_x"
+	}
+	p.models["m_cond_mismatch"] = mismatch
+	twice, err := transformer.LoadJSONStringToProto(`{"schema_version":"1.1","type_definitions":[{"type":"user"},{"type":"doc","relations":{"a":{"this":{}},"v":{"union":{"child":[{"this":{}},{"intersection":{"child":[{"computedUserset":{"relation":"a"}},{"this":{}}]}}]}}},"metadata":{"relations":{"a":{"directly_related_user_types":[{"type":"user"}]},"v":{"directly_related_user_types":[{"type":"user"},{"type":"user"},{"type":"doc","relation":"a"}]}}}}]}`)
+	if err != nil {
+		panic(err)
+	}
+	p.models["m_this_twice"] = twice
 	p.files["f_ok"] = mods
 	p.files["f_conflict"] = poolConflict()
 	return p
